@@ -3,11 +3,14 @@
 package hlib
 
 import (
+	"context"
 	"fmt"
 	"strings"
+	"time"
 
 	netty "github.com/go-netty/go-netty"
 	"github.com/go-netty/go-netty/zz_verif/explore"
+	"github.com/go-netty/go-netty/zz_verif/vcontext"
 	"github.com/go-netty/go-netty/zz_verif/vsched"
 )
 
@@ -21,6 +24,9 @@ type WParams struct {
 	// injection); Handlers (optional) replaces the default inbound handler.
 	Prep     func(e *Env)
 	Handlers func() []netty.Handler
+	// Deadline: the writers' contexts carry a (far away) deadline, so the synchronous Ctx entry points arm
+	// and clear the transport's write deadline around their writes
+	Deadline bool
 	Bound    int
 	Tag      string
 	Cache    bool
@@ -95,7 +101,11 @@ func WriteScenario(p WParams, check func(x *vsched.Exec, o *WObs) []explore.Find
 			var ths []*vsched.Thread
 			for _, w := range o.Ws {
 				w := w
-				ths = append(ths, vsched.Go(w.Name, func() { w.Run(o.Env.Ch, nil) }))
+				var ctx context.Context
+				if p.Deadline {
+					ctx, _ = vcontext.WithTimeout(context.Background(), time.Hour)
+				}
+				ths = append(ths, vsched.Go(w.Name, func() { w.Run(o.Env.Ch, ctx) }))
 			}
 			for _, t := range ths {
 				vsched.Join(t)
